@@ -95,6 +95,11 @@ class World:
         self.vk = VerifyingKey.from_string(self.sk.get_verifying_key().to_string(), curve=d.lib, hashfunc=hashlib.sha256)
         self.sig = None
         self.badsig = None
+        # a second, independent key pair of the same curve: shares nothing but curve.generator
+        self.dd2 = n // 5 + 3
+        self.sk2 = SigningKey.from_secret_exponent(self.dd2, curve=d.lib, hashfunc=hashlib.sha256)
+        self.vk2 = VerifyingKey.from_string(self.sk2.get_verifying_key().to_string(), curve=d.lib, hashfunc=hashlib.sha256)
+        self.sig2 = None
 
     _sigs = {}
 
@@ -104,8 +109,10 @@ class World:
             sig = sk.sign_deterministic(MSG)
             l = len(sig) // 2
             s = int.from_bytes(sig[l:], "big")
-            World._sigs[self.d.name] = (sig, sig[:l] + ((s % (self.d.n - 1)) + 1).to_bytes(l, "big"))
-        self.sig, self.badsig = World._sigs[self.d.name]
+            sk2 = SigningKey.from_secret_exponent(self.dd2, curve=self.d.lib, hashfunc=hashlib.sha256)
+            World._sigs[self.d.name] = (sig, sig[:l] + ((s % (self.d.n - 1)) + 1).to_bytes(l, "big"),
+                                        sk2.sign_deterministic(MSG))
+        self.sig, self.badsig, self.sig2 = World._sigs[self.d.name]
 
 
 def _aff(R):
@@ -135,6 +142,8 @@ def _ops(n):
         "muladd": lambda w: _aff(w.G.mul_add(k1, w.P, k2)),
         "muladd_tables": lambda w: _aff(w.G.mul_add(k2, w.GP, k1)),
         "verify": lambda w: w.vk.verify(w.sig, MSG),
+        "verify_other_key": lambda w: w.vk2.verify(w.sig2, MSG),
+        "sign_other_key": lambda w: w.sk2.sign_deterministic(MSG).hex(),
         "verify_bad": lambda w: _verify_bad(w),
         "precompute": lambda w: (w.vk.precompute(lazy=True), w.vk.verify(w.sig, MSG))[1],
         "precompute_eager": lambda w: (w.vk.precompute(lazy=False), _aff(w.vk.pubkey.point))[1],
@@ -279,11 +288,11 @@ def sweep_pair(ctx, cname, a, b, two=False, stride=1):
 
 OPS = list(_ops(29))
 MUTATORS = ["mul_gen", "rmul_gen", "mul_P", "scale_P", "affine_P", "muladd", "muladd_tables", "precompute",
-            "precompute_eager", "pickle_gen", "verify", "sign"]
+            "precompute_eager", "pickle_gen", "verify", "sign", "verify_other_key"]
 
 
 SECOND_QUICK = ["x_P", "eq_same", "add_PQ", "pickle_P", "pickle_gen", "mul_gen", "mul_P", "verify", "affine_P",
-                "pub_x", "muladd", "scale_P"]
+                "pub_x", "muladd", "scale_P", "verify_other_key"]
 
 
 def units(tier, seed):
